@@ -366,6 +366,11 @@ fn check_weighted(acc: &str, obs: Option<f64>, sp: &PSlot, e: &PairEmb, addonly:
     let c = e.e2.b; // weight scale
     let r = exp.to_f64();
     match acc {
+        "weighted_mean" if sx.constant && addonly => {
+            // C16: one observation, or any add-only stream of identical observations x: exactly x
+            let want = e.e1.x(xs[0]);
+            if obs == want { Verdict::Ok } else { Verdict::Bad(format!("constant data: the weighted mean must be exactly {}, observed {}", fmt_f(want), fmt_f(obs))) }
+        }
         "weighted_mean" => {
             let s = e.e1.a + e.e1.b * r;
             let d = (obs - e.e1.a) - e.e1.b * r;
@@ -611,7 +616,7 @@ fn exp_is_nan(fam: &str, acc: &str, sp: &PSlot, swap: bool) -> bool {
     matches!(sp.vals.get(key), Some(PSpec::V(SpecVal::NaN)))
 }
 
-fn tags(fam: &str, acc: &str, sp: &PSlot, exp_nan: bool) -> Vec<&'static str> {
+fn tags(fam: &str, acc: &str, sp: &PSlot, exp_nan: bool, addonly: bool) -> Vec<&'static str> {
     let mut t = vec![if fam == "weighted" { "C08" } else { "C09" }];
     if acc == "len" || acc == "is_empty" {
         t.push("C11");
@@ -620,7 +625,9 @@ fn tags(fam: &str, acc: &str, sp: &PSlot, exp_nan: bool) -> Vec<&'static str> {
         t.push("C10");
     }
     let sumw: i64 = sp.data.iter().map(|p| p.1).sum();
-    if sp.n <= 1 || exp_nan || (fam == "weighted" && sumw == 0) {
+    let constant_x = sp.n >= 1 && sp.data.iter().all(|p| p.0 == sp.data[0].0);
+    let constant_y = fam != "weighted" && sp.n >= 1 && sp.data.iter().all(|p| p.1 == sp.data[0].1);
+    if sp.n <= 1 || exp_nan || (fam == "weighted" && sumw == 0) || (addonly && (constant_x || constant_y)) {
         t.push("C16");
     }
     t
@@ -722,7 +729,7 @@ fn replay_one<T: PairT>(h: &Value, ops: &[POp], specs: &[PSlot], e: &PairEmb, wa
                         check_cov(acc, o, sp, e, wt.addonly[s], swap)
                     };
                     let exp_nan = exp_is_nan(fam, acc, sp, swap);
-                    let tg = tags(fam, acc, sp, exp_nan);
+                    let tg = tags(fam, acc, sp, exp_nan, wt.addonly[s]);
                     if !tg.contains(&want.prop.as_str()) {
                         continue;
                     }
@@ -774,7 +781,10 @@ fn run_type<T: PairT>(h: &Value, ops: &[POp], specs: &[PSlot], want: &PWant, rep
         return;
     }
     for e in &want.embs {
-        replay_one::<T>(h, ops, specs, e, want, rep);
+        let r = std::panic::catch_unwind(std::panic::AssertUnwindSafe(|| replay_one::<T>(h, ops, specs, e, want, &mut *rep)));
+        if r.is_err() {
+            viol::<T>(rep, &want.prop, &want.family, e, h, 0, "panic", "the code under test panicked (new / add / merge / clone / serde)".into(), json!({}));
+        }
     }
 }
 
